@@ -1,9 +1,9 @@
 // Command c06 executes Buffer scenarios (C06, C07, C15) against the real buffer package behind a
 // real HTTP server and client.
 //
-//	cfg [maxreq=N] [memreq=N] [maxresp=N] [memresp=N] [retry=<go expr> rx=<polish>] [hj=0|1]
+//	cfg [maxreq=N] [memreq=N] [maxresp=N] [memresp=N] [retry=<go expr> rx=<polish>] [hj=0|1] [verbose=1] [up=stream-verbose|rr-verbose]
 //	        -> ok | err expr
-//	req <method> <url> cl|ch <len> <seed> [h=K:V;K:V] a=<attempt> a=<attempt> ...
+//	req <method> <url> cl|ch <len> <seed> [h=K:V;K:V] [ct=form|multipart] a=<attempt> a=<attempt> ...
 //	        -> inv=N v=<view>... w=<status>|<hdrs>|<len:ck> hij=0|1 cl=ok left=N
 //
 // attempt = comma separated fields, executed by the protected handler in this order:
@@ -26,6 +26,7 @@ import (
 	"net"
 	"net/http"
 	"net/http/httptest"
+	"net/url"
 	"os"
 	"reflect"
 	"sort"
@@ -36,6 +37,8 @@ import (
 	"time"
 
 	"github.com/vulcand/oxy/v2/buffer"
+	"github.com/vulcand/oxy/v2/roundrobin"
+	"github.com/vulcand/oxy/v2/stream"
 	"github.com/vulcand/oxy/v2/zzverif/hx"
 )
 
@@ -175,6 +178,7 @@ type exchange struct {
 
 type scen struct {
 	mu     sync.Mutex
+	entry  http.Handler // Buffer, or a verbose oxy middleware in front of it
 	srv    *httptest.Server
 	buf    *buffer.Buffer
 	hj     bool
@@ -238,9 +242,9 @@ func (s *scen) outer(w http.ResponseWriter, r *http.Request) {
 	ex.inHeader = r.Header.Clone()
 	base := rec{w: w, ex: ex}
 	if s.hj {
-		s.buf.ServeHTTP(&recHJ{base}, r)
+		s.entry.ServeHTTP(&recHJ{base}, r)
 	} else {
-		s.buf.ServeHTTP(&base, r)
+		s.entry.ServeHTTP(&base, r)
 	}
 }
 
@@ -368,6 +372,8 @@ func (s *scen) inner(w http.ResponseWriter, r *http.Request) {
 
 var tokenSeq int
 
+type origURLKey struct{}
+
 
 // envClass recognises local-port exhaustion (many harness processes, sockets in TIME_WAIT).
 func envClass(err error) string {
@@ -439,6 +445,12 @@ func (s *scen) doReq(f []string) string {
 		req.ContentLength = int64(n)
 	}
 	req.Header.Set("User-Agent", "hx")
+	switch ct, _ := hx.KV(f[6:], "ct"); ct {
+	case "form":
+		req.Header.Set("Content-Type", "application/x-www-form-urlencoded")
+	case "multipart":
+		req.Header.Set("Content-Type", "multipart/form-data; boundary=hxb")
+	}
 	req.Header.Set("Hx-Token", ex.token)
 	if h, ok := hx.KV(f[6:], "h"); ok && h != "-" {
 		for _, kv := range strings.Split(h, ";") {
@@ -568,11 +580,42 @@ func newScenario(cfg []string) (hx.Handler, string) {
 	if v, ok := hx.KV(cfg, "retry"); ok {
 		opts = append(opts, buffer.Retry(v))
 	}
+	if hx.KVInt(cfg, "verbose", 0) == 1 {
+		opts = append(opts, buffer.Verbose(true))
+	}
 	b, err := buffer.New(http.HandlerFunc(s.inner), opts...)
 	if err != nil {
 		return s, "err expr"
 	}
 	s.buf = b
+	s.entry = b
+	switch up, _ := hx.KV(cfg, "up"); up {
+	case "stream-verbose":
+		st, err := stream.New(b, stream.Verbose(true))
+		if err != nil {
+			panic(err)
+		}
+		s.entry = st
+	case "rr-verbose":
+		// the balancer replaces req.URL by the chosen server's URL on its shallow copy: put the client's URL back
+		// before Buffer, only the balancer's verbose request dump is of interest here
+		restore := http.HandlerFunc(func(w http.ResponseWriter, r *http.Request) {
+			if u, ok := r.Context().Value(origURLKey{}).(*url.URL); ok {
+				r.URL = u
+			}
+			b.ServeHTTP(w, r)
+		})
+		rr, err := roundrobin.New(restore, roundrobin.Verbose(true))
+		if err != nil {
+			panic(err)
+		}
+		if err := rr.UpsertServer(&url.URL{Scheme: "http", Host: "backend.invalid"}); err != nil {
+			panic(err)
+		}
+		s.entry = http.HandlerFunc(func(w http.ResponseWriter, r *http.Request) {
+			rr.ServeHTTP(w, r.WithContext(context.WithValue(r.Context(), origURLKey{}, r.URL)))
+		})
+	}
 	s.oldTmp = os.Getenv("TMPDIR")
 	dir, err := os.MkdirTemp("", "c06-")
 	if err != nil {
